@@ -63,6 +63,11 @@ func ChildMain(scriptPath string) {
 		fmt.Println("CHILDERR", err)
 		os.Exit(3)
 	}
+	var ks kScript
+	if json.Unmarshal(b, &ks) == nil && ks.Mode == "conc" {
+		concChildMain(ks)
+		return
+	}
 	var sc childScript
 	json.Unmarshal(b, &sc)
 	st, err := sqlite.New(sc.Path)
